@@ -67,3 +67,17 @@ PROPS["C01"] = dict(
 DESCR += [(r"c01_._chunked", "well-formed chunked body (shape in the name) with symbolic payload/extension/garbage bytes read to EOF; delivered bytes compared with the generator's payload"),
           (r"c01_._length", "Content-Length body with symbolic payload and trailing garbage, read to EOF through BodyReader::Length"),
           (r"c01_._close", "close-delimited body with symbolic payload read to EOF through BodyReader::Close")]
+
+PROPS["C02"] = dict(
+    filters={"quick": ["c02_q", "c02_qtwin"], "thorough": ["c02_"]},
+    timeout_s={"quick": 600, "thorough": 1800},
+    kernel=_BODY_KERNEL,
+    bounds="every cut offset of each listed frame (chunked shapes of <=2 chunks of <=5 bytes, length/close bodies of 4 bytes) x fault in {EOF, ConnectionReset, WouldBlock, TimedOut} "
+           "x {fault persists, fault once then the rest of the wire arrives} x 2 further reads after the first terminal result; single-byte corruption of the line ending after chunk data (symbolic replacement byte); unwind 40",
+    outside="corruptions of size-line bytes (only the no-panic part is claimed, under C05); payloads beyond the listed sizes",
+    stubs=["core::slice::memchr::memchr -> naive byte loop", "core::str::from_utf8 -> byte-wise RFC 3629 validator (std's depends on align_offset, nondeterministic under Kani)"],
+    assumptions=["scripted transport contract as in C01"],
+)
+DESCR += [(r"c02_._chunked", "chunked frame cut at every byte offset, then the named fault (persisting or transient); prefix property and no-clean-EOF checked incl. 2 reads after the error"),
+          (r"c02_._length", "Content-Length body cut at every offset, then the named fault"),
+          (r"c02_._close", "close-delimited body hit by the named fault at every offset")]
